@@ -977,7 +977,8 @@ def main():
                 break
             random_search(scns[(rname, 2)], cap, 2 if QUICK else 10, stats, late_begin=True)
     if PROGS is None or a.search:
-        for rname, n, cap, budget in plan:
+        # (the configurations with the most items first: most reorderings need at least three; small capacities first)
+        for rname, n, cap, budget in sorted(plan, key=lambda t_: (-t_[1], t_[2])):
             if cap == 16 and n < 3:
                 continue
             if enough():
